@@ -90,7 +90,7 @@ def make_data(case):
         if isinstance(warr, np.ndarray) and case["wkind"] == "int":
             warr = warr.astype(case.get("wdtype") or np.int64)
         if isinstance(warr, np.ndarray) and case["wkind"] in ("dyadic", "float"):
-            warr = warr.astype(np.float64)
+            warr = warr.astype(case.get("fwdtype") or np.float64)
     k = case.get("rows")
     if k and len(data) and len(data) % k == 0 and k > 1:
         arr = arr.reshape(k, -1)
@@ -138,6 +138,10 @@ def assert_histogram(ctx: Ctx, h, case, ps_expected=None):
     if case.get("wdtype") and not case.get("dtype"):
         # integer weights of a narrow type: the histogram may keep that type or widen it, but stays integral
         require(h.dtype.kind == "i", "dtype", f"reported {h.dtype} for {case['wdtype']} weights")
+        dt = h.dtype
+    if case.get("fwdtype") and not case.get("dtype"):
+        # float weights of a narrow type: some float type (the values below decide whether it was wide enough)
+        require(h.dtype.kind == "f", "dtype", f"reported {h.dtype} for {case['fwdtype']} weights")
         dt = h.dtype
     require(h.dtype == dt, "dtype", f"reported {h.dtype}, expected {dt}")
     require(h.frequencies.dtype == dt and h.errors2.dtype == dt, "array_dtype",
@@ -328,13 +332,20 @@ def explicit_cases(draw, tier="quick"):
     dtype = draw(st.sampled_from([None, None, None, "int32", "int64", "float32", "float64"]))
     if wdtype:
         dtype = None
+    fwdtype = None
+    if wkind in ("dyadic", "float") and draw(st.integers(0, 3)) == 0:
+        # float weights stored in a narrow type whose squares / sums leave that type (all exactly representable in it)
+        fwdtype = draw(st.sampled_from(["float16", "float32"]))
+        heavy = {"float16": [300.0, 1024.0, 0.5, 60000.0, 0.0], "float32": [2.0 ** 100, 2.0 ** 70, 3.0, 0.5, 2.0 ** 127]}[fwdtype]
+        weights = [draw(st.sampled_from(heavy)) for _ in weights]
+        wkind, dtype = "float", None
     return {
         "spec": spec, "pairs": ps, "data": data, "wkind": wkind, "weights": weights,
         "wform": draw(st.sampled_from(["array", "array", "list"])),
         "dtype": dtype, "keep_missed": draw(st.sampled_from([True, True, False])), "dropna": dropna,
         "rows": draw(st.sampled_from([None, None, 2, 3])), "as_int": draw(st.booleans()),
         "layout": draw(st.sampled_from([None, "fortran", "transposed_view", "both_fortran", "weights_fortran"])),
-        "use_defaults": draw(st.booleans()), "wdtype": wdtype,
+        "use_defaults": draw(st.booleans()), "wdtype": wdtype, "fwdtype": fwdtype,
     }
 
 
